@@ -21,6 +21,21 @@ VarVecs == {[kind |-> "updvar", asn4 |-> TRUE, var |-> v, u |-> u] : v \in Varia
            \cup {[kind |-> "updvar", asn4 |-> TRUE, var |-> Canon, u |-> [u EXCEPT !.attrs = Reverse(u.attrs)]] : u \in Many}
            \cup {[kind |-> "updvar", asn4 |-> TRUE, var |-> Canon, u |-> [u EXCEPT !.attrs = Rotate(u.attrs)]] : u \in Many}
 CorVecs == {[kind |-> "cor", asn4 |-> TRUE, var |-> Canon, u |-> c] : c \in Corruptions}
+\* C15: per list kind, single elements of every width the format allows (element = its octets)
+El(kind, o) == [kind |-> "elem", list |-> kind, o |-> o]
+ElemVecs ==
+   {El("v4prefix", EncPrefix(p)) : p \in AllLen4} \cup {El("v6prefix", EncPrefix(p)) : p \in AllLen6}
+   \cup {El("lu4", EncLu(m.routes[1], TRUE)) : m \in {x \in LuPool("lu4") : x.reach /\ Len(x.routes) = 1 /\ x.routes[1].labels[Len(x.routes[1].labels)] # 0}}
+   \cup {El("lu6", EncLu(m.routes[1], TRUE)) : m \in {x \in LuPool("lu6") : x.reach /\ Len(x.routes) = 1 /\ x.routes[1].labels[Len(x.routes[1].labels)] # 0}}
+   \cup {El("vpn4", EncVpn(m.routes[1], TRUE)) : m \in {x \in VpnPool("vpn4") : x.reach /\ Len(x.routes) = 1}}
+   \cup {El("vpn6", EncVpn(m.routes[1], TRUE)) : m \in {x \in VpnPool("vpn6") : x.reach /\ Len(x.routes) = 1}}
+   \cup {El("evpn", EncEvpn(e)) : e \in EvpnRoutes}
+   \cup {El("fsrule", EncRule(r)) : r \in FsRules}
+   \cup {El("comm", x.o) : x \in StdPool} \cup {El("extcomm", x.o) : x \in ExtPool} \cup {El("large", x.o) : x \in LargePool}
+   \cup {El("cluster", i) : i \in Ips \cup {<<1, 2, 3, 4>>}}
+   \cup {El("asseg4", EncSeg(sg, TRUE)) : sg \in {Seg(st, as) : st \in 1..4, as \in {<<<<0, 1>>>>, <<<<1, 0>>, <<0, 7>>>>, LongAs(3)}}}
+   \cup {El("asseg2", EncSeg(sg, FALSE)) : sg \in {Seg(st, as) : st \in 1..4, as \in {<<<<0, 1>>>>, <<<<0, 65535>>, <<0, 7>>>>, LongAs(3)}}}
+   \cup {El("cap", EncCap(c)) : c \in {CapKinds(<<0, 65002>>)[i] : i \in 1..11} \cup MoreCaps(<<0, 65002>>)}
 OpenVecs == {[kind |-> "open", u |-> o] : o \in {x \in OpenPool : NeedsAs4(x)}}
 OpenRtVecs == {[kind |-> "openrt", u |-> o] : o \in OpenRtPool}
 NotifVecs == {[kind |-> "notif", u |-> n] : n \in NotifPool}
@@ -31,6 +46,7 @@ Vecs == CASE FAMILY = "upd" -> UpdVecs [] FAMILY = "updvar" -> VarVecs [] FAMILY
                                  \cup {[kind |-> "comm", sub |-> 32, u |-> x] : x \in LargePool}
           [] FAMILY = "updap" -> {[kind |-> "updap", asn4 |-> TRUE, var |-> Canon, u |-> x.u, wids |-> x.wids, nids |-> x.nids] : x \in AddPathVecs}
           [] FAMILY \in {"mp_ipv6", "mp_lu4", "mp_lu6", "mp_vpn4", "mp_vpn6", "mp_evpn", "mp_fs"} -> MpPool(SubSeq(FAMILY, 4, Len(FAMILY)))
+          [] FAMILY = "elems" -> ElemVecs
           [] FAMILY = "rr" -> RRVecs [] FAMILY = "ka" -> {[kind |-> "ka", u |-> [x |-> 0]]}
 
 Bytes(v) ==
@@ -39,6 +55,7 @@ Bytes(v) ==
      [] v.kind = "notif" -> EncNotification(v.u.code, v.u.sub, v.u.data)
      [] v.kind = "rr" -> EncRouteRefresh(v.u.typ, v.u.afi, v.u.res, v.u.safi)
      [] v.kind = "ka" -> EncKeepalive
+     [] v.kind = "elem" -> v.o
      [] v.kind = "mp" -> EncMpUpdate(v)
      [] v.kind = "updap" -> EncUpdateAddPath(v.u, TRUE, v.wids, v.nids)
      [] v.kind = "comm" ->     \* an UPDATE announcing one prefix with the base attributes and this one community
